@@ -234,6 +234,13 @@ class _Desugar(ast.NodeTransformer):
                     ast.Assign(targets=[copy.deepcopy(tgt)], value=default)
                 new = _chain(d, key, lambda val: ast.Assign(targets=[copy.deepcopy(tgt)], value=val), dflt)
                 return _loc(new, st)
+            # x = D[k](args): the callee is looked up in a literal table -> if k == k1: x = v1(args) ...
+            lkc = _lookup(v.func, self.lits) if isinstance(v, ast.Call) else None
+            if lkc is not None and lkc[3] and isinstance(tgt, ast.Name) and not any(isinstance(y, ast.Call) for a_ in list(v.args) + [k_.value for k_ in v.keywords] for y in ast.walk(a_)):
+                d, key, default, strict = lkc
+                dflt = ast.Raise(exc=ast.Call(func=ast.Name(id="KeyError", ctx=ast.Load()), args=[], keywords=[]), cause=None)
+                new = _chain(d, key, lambda val: ast.Assign(targets=[copy.deepcopy(tgt)], value=ast.Call(func=val, args=copy.deepcopy(v.args), keywords=copy.deepcopy(v.keywords))), dflt)
+                return _loc(new, st)
             nx = self._next_gen(v)
             if nx is not None and isinstance(tgt, ast.Name):
                 gen, default = nx
